@@ -29,9 +29,16 @@ func init() {
 					}
 				}
 			}
+			// legacy (math/big, curve other than SM2 P-256) round trip over the abstract elliptic.Curve
+			for _, no := range [][3]int{{1, 0, 0}, {1, 1, 0}, {2, 0, 1}, {33, 1, 0}, {33, 0, 1}} {
+				{
+					n, order, short := no[0], no[1], no[2]
+					cs = append(cs, driver.Case{Harness: "verifH_c07_legacy_roundtrip", Pkg: "sm2", Config: "purego", Params: P("n", n, "order", order, "short", short), Overrides: sm2Overrides(), MaxUnwind: 4000, MaxPaths: 20000, TimeoutS: 900, Solver: "cvc5", Portfolio: true, MustReach: []string{"roundtrip"}})
+				}
+			}
 			return cs
 		},
-		Functions:   []string{"sm2.encryptSM2EC, encodeCiphertext, encodingCiphertextASN1, addASN1IntBytes", "sm2.decryptSM2EC, parseCiphertext, parseCiphertextASN1, unmarshalASN1Ciphertext, splitC2C3", "sm2.randomPoint, (*sm2Curve).pointFromAffine", "internal/sm2ec.(*SM2P256Point).SetBytes (format dispatch, real), fiat SetBytes range check (real)", "internal/sm3.Kdf/kdfGeneric, digest (real, over UF-C)", "cryptobyte, math/big SetBytes/Bytes/FillBytes/BitLen (real)"},
+		Functions:   []string{"sm2.encryptLegacy, decryptLegacy, rawDecrypt, calculateC3, bytesToPoint, randFieldElement (math/big path, abstract elliptic.Curve)", "sm2.encryptSM2EC, encodeCiphertext, encodingCiphertextASN1, addASN1IntBytes", "sm2.decryptSM2EC, parseCiphertext, parseCiphertextASN1, unmarshalASN1Ciphertext, splitC2C3", "sm2.randomPoint, (*sm2Curve).pointFromAffine", "internal/sm2ec.(*SM2P256Point).SetBytes (format dispatch, real), fiat SetBytes range check (real)", "internal/sm3.Kdf/kdfGeneric, digest (real, over UF-C)", "cryptobyte, math/big SetBytes/Bytes/FillBytes/BitLen (real)"},
 		Assumptions: []string{"abstract group: points are coordinate pairs, group operations uninterpreted; the Diffie-Hellman fact [k]([d]G) = [d]([k]G) is assumed on the uninterpreted functions; curve membership and square roots are opaque", "entry points are the unexported encryptSM2EC/decryptSM2EC (the exported wrappers dispatch on elliptic.CurveParams built with math/big tables)", "SM3 compression uninterpreted"},
 		Bounds:      map[string]string{"quick": "messages of 1..4 bytes, layouts C1C3C2 / C1C2C3 with uncompressed C1, up to one all-zero-KDF retry and one rejected nonce; decrypt on arbitrary strings of 12 lengths 0..140 with each format byte", "thorough": "messages of 1..12 bytes"},
 		Outside:     []string{"compressed C1 in the round trip (square roots are opaque)", "ASN.1 layout in the round trip and ASN.1 inputs longer than 12 bytes (math/big integer handling forks once per length; not run in the registered bounds)", "scalars and coordinates with leading zero bytes", "legacy-curve path (math/big)", "enveloped key container", "actual curve computations"},
